@@ -180,6 +180,7 @@ type alphSim struct {
 	reobsPhase              bool
 	lastFaultAt             time.Duration
 	forceFault              map[string]int // request kind -> fault code for the next request of that kind
+	prevMeta                *tokenMeta     // what token 0x50 reported before the last change
 	injectedFaultSinceStart bool
 
 	handoffs  []handoff
@@ -325,6 +326,13 @@ func (s *alphSim) makeEvent(kind, level, variant int, seq uint64) *simEvent {
 			}
 		}
 		dec := byte(meta.decimals)
+		stale := kind == 1 && variant >= 1000 && s.prevMeta != nil
+		if stale {
+			// claims what the contract reported before its metadata changed
+			meta = s.prevMeta
+			dec = byte(meta.decimals)
+			s.stats.Fault("attestation-with-stale-metadata")
+		}
 		if kind == 2 {
 			if variant%2 == 0 {
 				dec++
@@ -343,7 +351,7 @@ func (s *alphSim) makeEvent(kind, level, variant int, seq uint64) *simEvent {
 			s.stats.Fault("attestation-with-trailing-bytes")
 		}
 		e.isAttest, e.isTransfer = true, false
-		e.attestOK = kind == 1 || (kind == 5 && meta.failMode == 13) // a slow answer is still a correct one
+		e.attestOK = (kind == 1 && !stale) || (kind == 5 && meta.failMode == 13) // a slow answer is still a correct one
 		payloadV = bvec(e.payload)
 		senderB = e.sender[:]
 	case 8:
@@ -1263,6 +1271,7 @@ func (s *alphSim) runStep(st simkit.Step) {
 		m := s.tokens[tokHex]
 		nm := &tokenMeta{symbol: fmt.Sprintf("TK%d", st.A%7), name: m.name + "+", decimals: 6 + int(st.A%3)}
 		s.tokens[tokHex] = nm
+		s.prevMeta = m
 		for _, le := range s.govLog {
 			e := le.ev
 			if e.attTok != tokHex {
@@ -1510,6 +1519,9 @@ func (alphHarness) Gen(seed uint64, prop, tier string) *simkit.Program {
 				add("adv", 2*p.Cfg["poll_ms"], 0, 0, 0)
 				add("tokmut", int64(r.Intn(21)), 0, 0, 0)
 				add("ev", int64(1+r.Intn(2)), level(), int64(r.Intn(48)), 0)
+				if r.P(0.6) {
+					add("ev", 1, level(), 1000+int64(r.Intn(48)), 0) // attests the metadata of before the change
+				}
 			}
 		case 2:
 			switch r.Pick(4, 3, 1) {
